@@ -328,7 +328,7 @@ fn faults(n: usize, idx: u64, g0: &Graph, mode: CmpMode, stamp: &mut u64, acc: &
     let starts = start_states(g0, mode, stamp, acc);
     for st in &starts {
         let g = &st.g;
-        let exp = expected(g, &st.history, &st.disk, mode);
+        let exp = expected(g, &st.history, &st.disk, mode, &BTreeSet::new());
         // uninterrupted reference run
         let (u, udisk) = canonical(g, &st.history, &st.disk, mode, stamp);
         acc.evaluations += 1;
@@ -466,7 +466,7 @@ fn edits(n: usize, idx: u64, g0: &Graph, mode: CmpMode, stamp: &mut u64, acc: &m
             continue;
         }
         let st = Start { name: "after-edit", g: g.clone(), history: h.clone(), disk: disk.clone() };
-        let exp = expected(&g, &h, &disk, mode);
+        let exp = expected(&g, &h, &disk, mode, &BTreeSet::new());
         let mut first: Option<(Report, BTreeMap<String, String>)> = None;
         let consumed = g.consumed();
         let cmp = |a: &str, b: &str, c: &str, d: &str| altered(mode, &consumed, a, b, c, d);
@@ -551,7 +551,7 @@ fn edits(n: usize, idx: u64, g0: &Graph, mode: CmpMode, stamp: &mut u64, acc: &m
                 let (r2, _d2) = canonical(&g, h1, fdisk, mode, stamp);
                 acc.evaluations += 1;
                 let mut viols = r2.violations.clone();
-                let exp2 = expected(&g, h1, fdisk, mode);
+                let exp2 = expected(&g, h1, fdisk, mode, &BTreeSet::new());
                 viols.extend(judge_offline(&g, h1, &_d2, &r2, &exp2, mode, acc));
                 if r2.history_out.is_some() {
                     for j in &r2.started {
@@ -586,7 +586,7 @@ fn edits(n: usize, idx: u64, g0: &Graph, mode: CmpMode, stamp: &mut u64, acc: &m
                 // restore the original graph after a removal: the re-added job/dependency is judged
                 // against what it last consumed (C18, C03, C01)
                 if matches!(e, Edit::RemoveJob(_) | Edit::RemoveEdge(_, _) | Edit::AddEdge(_, _)) {
-                    let exp3 = expected(g0, h1, fdisk, mode);
+                    let exp3 = expected(g0, h1, fdisk, mode, &BTreeSet::new());
                     let (r3, d3) = canonical(g0, h1, fdisk, mode, stamp);
                     acc.evaluations += 1;
                     let mut viols = r3.violations.clone();
